@@ -51,8 +51,11 @@ def fire(cell):
     rec = pb.Unit.Foot(cell[9]) if len(cell) > 9 and cell[9] else U.Yard(100)        # recording step
     dm = pb.DragModel(0.223, pb.TableG7, U.Grain(168), U.Inch(0.308), U.Inch(1.282))
 
+    sens = len(cell) > 10 and cell[10]       # powder sensitivity switched on (powder at 15 C, air as the station says)
+
     def shot():
-        return pb.Shot(pb.Weapon(U.Inch(2), U.Inch(12)), pb.Ammo(dm, U.FPS(mv)), relative_angle=U.Degree(ang), look_angle=U.Degree(look),
+        return pb.Shot(pb.Weapon(U.Inch(2), U.Inch(12)), pb.Ammo(dm, U.FPS(mv), U.Celsius(15), 0.02, True) if sens else pb.Ammo(dm, U.FPS(mv)),
+                       relative_angle=U.Degree(ang), look_angle=U.Degree(look),
                        atmo=pb.Atmo.icao(U.Foot(alt)), winds=[pb.Wind(U.MPH(wind[0]), U.Degree(wind[1]))] if wind else None)
 
     full = dict(DEFAULTS)
@@ -75,6 +78,10 @@ def fire(cell):
     reasons = [pb.RangeError.MinimumVelocityReached, pb.RangeError.MaximumDropReached, pb.RangeError.MinimumAltitudeReached]
     if err.reason not in reasons:
         out.append({'msg': f'RangeError.reason {err.reason!r} is not one of the three documented reasons', 'key': None})
+    # the stated reason is a TEXT the user reads: three different ones, each naming its limit
+    words = ('velocity', 'drop', 'altitude')
+    if len(set(reasons)) != 3 or any(w not in str(r).lower() for w, r in zip(words, reasons)) or any(w in str(r).lower() for i, r in enumerate(reasons) for j, w in enumerate(words) if i != j):
+        out.append({'msg': f'the three reasons of RangeError read {reasons}: they do not name minimum velocity / maximum drop / minimum altitude one each', 'key': None})
     if not rows:
         out.append({'msg': 'RangeError carries no rows', 'key': None})
         return {'v': out, 'n': 1, 'obs': ['empty']}
@@ -165,7 +172,32 @@ def align(cell):
     return {'v': out, 'n': n, 'nt': cell}
 
 
-PARTS = {'fire': fire, 'align': align}
+def degenerate(cell):
+    """finite inputs include the degenerate ones: range 0, recording step 0, both; given as quantities or bare numbers. The call must come back
+    (the watchdog of this part is the oracle for "terminates") with a trajectory that reaches the range, or a range error (which rows a step of 0 produces is nobody's business here: C03 starts at steps >= one integration step)"""
+    import py_ballisticcalc as pb
+    U = pb.Unit
+    rng, step, extra, bare = cell
+    dm = pb.DragModel(0.223, pb.TableG7, U.Grain(168), U.Inch(0.308), U.Inch(1.282))
+    shot = pb.Shot(pb.Weapon(U.Inch(2), U.Inch(12)), pb.Ammo(dm, U.FPS(2750)))
+    calc = pb.Calculator()
+    out = []
+    args = [rng if bare else U.Yard(rng)]
+    if step is not None:
+        args.append(step if bare else U.Foot(step))
+    try:
+        rows = calc.fire(shot, *args, extra_data=extra).trajectory
+        if not rows:
+            out.append({'msg': f'fire(range {rng} yd, step {step}, extra={extra}) returned no rows', 'key': None})
+        elif (rows[-1].distance >> U.Yard) < rng * (1 - 1e-9):
+            out.append({'msg': f'fire(range {rng} yd, step {step}, extra={extra}) returned normally but the last row is at {rows[-1].distance >> U.Yard!r} yd', 'key': None})
+    except pb.RangeError:
+        pass
+    return {'v': out, 'n': 1, 'nt': cell}
+
+
+BUDGETS = {'degenerate': 30}
+PARTS = {'fire': fire, 'align': align, 'degenerate': degenerate}
 
 
 def plan(tier):
@@ -200,7 +232,17 @@ def plan(tier):
                 for cfg in ({}, {'cMaximumDrop': -10.0}, {'cMinimumAltitude': -5.0}, {'cMinimumVelocity': 500.0, 'cMaximumDrop': -10.0}):
                     for extra in (False, True):
                         cells.append([ang, mv, 0.0, cfg, 3000, extra, 0.5 if mv < 100 else 0.0, None, look])
+    # the same launches (zero velocity included) with powder temperature sensitivity switched on
+    for ang in (0.0, 45.0, -90.0):
+        for mv in (2750.0, 60.0, 0.0):
+            for alt in (0.0, 5000.0):
+                for cfg in ({}, {'cMinimumVelocity': 0.0}, {'cMaximumDrop': -10.0}):
+                    cells.append([ang, mv, alt, cfg, 100, False, 0.5 if mv < 100 else 0.0, None, 0.0, None, True])
     al = [[ang, mv, cfg, extra] for ang in (0.0, -1.0, 10.0, 45.0) for mv in (2750.0, 900.0)
           for cfg in ({'cMaximumDrop': -5.0}, {'cMinimumVelocity': 0.8 * mv}, {'cMinimumAltitude': -3.0}, {'cMaximumDrop': -40.0, 'cMinimumVelocity': 0.5 * mv})
           for extra in (False, True)]
-    return [('fire', cells), ('align', al)]
+    # (positive ranges many orders of magnitude below one integration step are not explored: with no step given the record filter then walks
+    # range/10-sized increments up to the first integration point, ~1e9 iterations for a range of 1e-9 yd - slow, not a limit of this property's domain)
+    dg = [[rng, step, extra, bare] for rng in (0.0, 50.0) for step in (None, 0.0, 10.0) for extra in (False, True) for bare in (False, True)
+          if not (rng == 50.0 and step == 10.0)]
+    return [('fire', cells), ('align', al), ('degenerate', dg)]
